@@ -148,9 +148,6 @@ def classes(ma, chain):
         b = binder_idx(chain, i) if free_here else None
         if k == 'c' and r == 'read_then_assign':
             cs.add('KF-D27')
-        # D18: a function strictly between binder and user rebinds the name through `nonlocal`
-        if free_here and b is not None and any(chain[j][0] == 'f' and chain[j][1] in ('nlassign', 'nlaug') for j in range(b + 1, i)):
-            cs.add('KF-D18')
         # D20: a global read (explicit or implicit) below an enclosing function that has a local of the same name
         reads_global = (r in ('gassign', 'gread', 'gaug')) or (free_here and b is None)
         if reads_global and any(chain[j][0] == 'f' and chain[j][1] in LOCALBIND for j in range(i)):
